@@ -168,6 +168,17 @@ def selftest():
     return refhttp.selftest()
 
 
+def _sample_wire(cfg):
+    from vlib import hk
+    saved = dict(hk.CFG)
+    hk.CFG.clear()
+    hk.CFG.update(cfg)
+    w, _ = assemble(71, 69, 84, 97, 98, 97, 120, 121, 122, 1, 1, 2, 3)
+    hk.CFG.clear()
+    hk.CFG.update(saved)
+    return w
+
+
 def _len_of(cfg):
     from vlib import hk
     saved = dict(hk.CFG)
@@ -211,6 +222,13 @@ def obligations(tier):
         for c in cutset:
             if 0 < c < n:
                 add('cut.%s.at%d' % (nm, c), method=1, framing=fr, blen=bl, layout=lay, nheaders=0, cuts=[c])
+        # the same request as SECOND request of the connection, cut wherever the next read would start with CR or LF
+        w = _sample_wire(cfg)
+        crlf_cuts = [i for i in range(1, n) if w[i] in (13, 10)]
+        if tier == 'quick':
+            crlf_cuts = [c for c in crlf_cuts if c >= head - 4 or c < 40][:7]
+        for c in crlf_cuts:
+            add('cut.%s.second.at%d' % (nm, c), method=1, framing=fr, blen=bl, layout=lay, nheaders=0, cuts=[c], second=True)
         if tier == 'thorough':
             for c1 in range(max(1, head - 2), n):
                 for c2 in range(c1 + 1, n):
